@@ -751,8 +751,40 @@ def b_reversed(ip, st, x):
     return SSeq(n, lambda i: Q.seq_get(v, n - 1 - i), getattr(v, "shape", None), None, "reversed")
 
 
+def _quantified_any_all(ip, st, v, want_any):
+    """any()/all() over a sequence of symbolic length whose elements are booleans: a fresh boolean with
+    its defining quantified facts (witness / universal)."""
+    n = Q.seq_len(v)
+
+    def elt(j):
+        e = Q.seq_get(v, j)
+        if isinstance(e, (SBool, bool)):
+            return e
+        raise Unsupported("any()/all() over a symbolic sequence of non-boolean elements")
+
+    r = st.fresh_bool("any" if want_any else "all")
+    jw = st.fresh_int("witness")
+    if want_any:
+        st.assume(V.implies(r, both(V._cmp(">=", jw, 0), V._cmp("<", jw, n))))
+        if st.branch(r):
+            st.assume(elt(jw))
+        else:
+            st.assume(V.forall(0, n, lambda j: neg(elt(j))))
+        return r
+    st.assume(V.implies(neg(r), both(V._cmp(">=", jw, 0), V._cmp("<", jw, n))))
+    if st.branch(r):
+        st.assume(V.forall(0, n, lambda j: elt(j)))
+    else:
+        st.assume(neg(elt(jw)))
+    return r
+
+
 def b_any(ip, st, x):
     v = ip.iter_view(st, st.force(x))
+    if isinstance(v, LRef):
+        v = v.seq
+    if not isinstance(Q.seq_len(v), int):
+        return _quantified_any_all(ip, st, v, True)
     r = False
     for i in range(_conc_len(v)):
         r = either(r, b_bool(ip, st, Q.seq_get(v, i)))
@@ -761,6 +793,10 @@ def b_any(ip, st, x):
 
 def b_all(ip, st, x):
     v = ip.iter_view(st, st.force(x))
+    if isinstance(v, LRef):
+        v = v.seq
+    if not isinstance(Q.seq_len(v), int):
+        return _quantified_any_all(ip, st, v, False)
     r = True
     for i in range(_conc_len(v)):
         r = both(r, b_bool(ip, st, Q.seq_get(v, i)))
